@@ -122,7 +122,7 @@ func (cs *ContractSet) forFunc(fn *ssa.Function) *FuncContract {
 
 var clauseKW = map[string]bool{"func": true, "type": true, "pure": true, "uf": true, "lemma": true, "ghost": true, "requires": true, "ensures": true,
 	"modifies": true, "decreases": true, "loop": true, "iterates": true, "concurrent": true, "props": true, "terminates": true,
-	"noinline": true, "guards": true, "invariant": true, "latch": true, "params": true, "results": true, "trusted": true, "purefn": true}
+	"noinline": true, "nonnil": true, "guards": true, "invariant": true, "latch": true, "params": true, "results": true, "trusted": true, "purefn": true}
 
 var tagRe = regexp.MustCompile(`^(\w+)\[([A-Z0-9, ]+)\]`)
 
@@ -374,6 +374,11 @@ func (cs *ContractSet) LoadContractFile(path string, pkgKey string) error {
 					curF.ResultNames = append(curF.ResultNames, strings.TrimSpace(p))
 				}
 			}
+		case "nonnil":
+			if curT == nil {
+				return fail("nonnil outside type block")
+			}
+			nonNilIfaces[curT.Key] = true
 		case "guards":
 			if curT == nil {
 				return fail("guards outside type block")
@@ -434,6 +439,12 @@ func parseFuncHeader(h string, pkgKey string) (key, recv string, err error) {
 	h = strings.TrimSpace(h)
 	if strings.HasPrefix(h, "interface ") {
 		return strings.TrimSpace(h[len("interface "):]), "self", nil
+	}
+	if !strings.HasPrefix(h, "(") && !strings.Contains(h, " ") {
+		if pkgKey != "" && !strings.Contains(strings.SplitN(h, "$", 2)[0], ".") {
+			return pkgKey + "." + h, "", nil
+		}
+		return h, "", nil
 	}
 	if m := hdrRecvRe.FindStringSubmatch(h); m != nil {
 		recv = m[1]
